@@ -112,7 +112,7 @@ class FakeListener:
 
 
 class Proc:
-    __slots__ = ("pid", "st", "status", "got", "tmp", "ignore", "beats", "born", "last_beat", "hung_at")
+    __slots__ = ("pid", "st", "status", "got", "tmp", "ignore", "beats", "born", "last_beat", "hung_at", "boot_until")
 
     def __init__(self, pid, tmp, now):
         self.pid, self.st, self.status, self.got = pid, "run", 0, set()
@@ -272,6 +272,9 @@ class SimKernel:
         self.next_pid += 1
         w = self.last_worker
         self.procs[pid] = Proc(pid, w.tmp if w is not None else None, self.ticks)
+        # between fork() and Worker.init_signals() the child still runs the master's queueing signal handler:
+        # a TERM / QUIT delivered in that window is swallowed (boot_ticks = length of the window, 0 = none)
+        self.procs[pid].boot_until = self.ticks + getattr(self, "boot_ticks", 0)
         self.point("fork", pid)
         return self.ext(pid)
 
@@ -297,6 +300,8 @@ class SimKernel:
                 if not (p.st == "hung" and p.ignore):
                     p.st, p.status = "zombie", 6
                     self.chld_pending = True
+            elif sig in (15, 3) and self.ticks < getattr(p, "boot_until", 0):
+                pass                                   # swallowed by the still booting child
             else:
                 p.got.add(sig)
         self.point("kill", pid, sig, 0)
